@@ -95,6 +95,9 @@ func genC04(r *Rng, tier string) *C04Case {
 			}
 		}
 		t := g.Template(cs.Envs[0])
+		if focus != nil && i < 2 {
+			t = g.Sweep(cs.Envs[0], focus, r.Range(5, 12)) // two flat sweeps of the focus filters lead the pool
+		}
 		if i > 0 && r.Chance(0.3) {
 			t = g.Sibling(cs.Trees[r.Intn(i)], cs.Envs[0])
 		}
